@@ -110,3 +110,20 @@ pub fn inst(proj: &str, ops: &str, o: &str) -> i32 {
     println!("{r:?}");
     0
 }
+
+pub fn costprobe() -> i32 {
+    use pallas_primitives::conway::Language;
+    use uplc::machine::cost_model::*;
+    for (name, lang, hard) in [
+        ("v1", Language::PlutusV1, CostModel::v1()),
+        ("v2", Language::PlutusV2, CostModel::v2()),
+        ("v3", Language::PlutusV3, CostModel::v3()),
+    ] {
+        for pv in [7u16, 8, 9, 10, 11] {
+            let derived = CostModel::default_for_language_and_protocol(&lang, pv);
+            println!("{name} pv{pv}: hard-coded == from default vector: {}  (machine costs equal: {})", hard == derived, hard.machine_costs == derived.machine_costs);
+        }
+    }
+    println!("default() == v3(): {}", CostModel::default() == CostModel::v3());
+    0
+}
